@@ -142,7 +142,7 @@ def random_basis(r, lp):
     return None
 
 
-def rand_run(r, lp, forced=None):
+def rand_run(r, lp, forced=None, force_add=None):
     cfg = {"representation": r.choice([1, 2, 2, 0]), "scaler": r.randrange(7), "persistentscaling": r.choice([1, 1, 0]),
            "simplifier": r.choice([0, 0, 1, 3])}
     if r.random() < 0.3:
@@ -180,12 +180,43 @@ def rand_run(r, lp, forced=None):
             v = r.choice([F(x) for x in (-3, -2, -1, 1, 2, 3, 4) if F(x) != old] + ([F(0)] if old != 0 and r.random() < 0.3 else []))
             ch.append("%d:%d:%s" % (i, j, lpgen.qs(v)))
         parts.append("chg=" + ",".join(ch))
+    elif lp.m >= 1 and lp.n >= 1 and (force_add or r.random() < 0.3):
+        # a column or a row added after the solve / setBasis, queries without a re-solve: the new column enters non-basic, the new row basic,
+        # and getBasisInd has to keep describing the matrix the queries answer for
+        if force_add == "col" or (force_add is None and r.random() < 0.6):
+            ent = ":".join("%d:%d" % (i, r.choice([-2, -1, 1, 2, 3])) for i in range(lp.m) if r.random() < 0.6)
+            parts.append("addc=%d:0:%s%s" % (r.randint(-3, 3), r.choice(["inf", "4", "7"]), (":" + ent) if ent else ""))
+        else:
+            ent = ":".join("%d:%d" % (j, r.choice([-2, -1, 1, 2, 3])) for j in range(lp.n) if r.random() < 0.6)
+            parts.append("addr=-inf:%d%s" % (r.randint(5, 30), (":" + ent) if ent else ""))
     return " ".join(parts)
 
 
 def apply_changes(lp, runline):
-    """the LP a run's queries are about: the case LP with the run's coefficient changes applied"""
+    """the LP a run's queries are about: the case LP with the run's coefficient changes / added column / added row applied"""
     ch = [t[4:] for t in runline.split() if t.startswith("chg=")]
+    ac = [t[5:] for t in runline.split() if t.startswith("addc=")]
+    ar = [t[5:] for t in runline.split() if t.startswith("addr=")]
+    if ac or ar:
+        base = apply_changes(lp, " ".join(t for t in runline.split() if not t.startswith(("addc=", "addr="))))
+        cols = list(base.cols)
+        rows = [(lhs, dict(co), rhs) for (lhs, co, rhs) in base.rows]
+        if ac:
+            f = ac[0].split(":")
+            cols.append((F(f[0]), lpgen.fr(f[1]), lpgen.fr(f[2])))
+            for q in range(3, len(f) - 1, 2):
+                i = int(f[q])
+                if 0 <= i < len(rows):
+                    rows[i][1][len(cols) - 1] = F(f[q + 1])
+        if ar:
+            f = ar[0].split(":")
+            co = {}
+            for q in range(2, len(f) - 1, 2):
+                j = int(f[q])
+                if 0 <= j < len(cols):
+                    co[j] = F(f[q + 1])
+            rows.append((lpgen.fr(f[0]), co, lpgen.fr(f[1])))
+        return lpgen.LP(base.maxi, base.offset, cols, rows, base.family)
     if not ch:
         return lp
     rows = [(lhs, dict(co), rhs) for (lhs, co, rhs) in lp.rows]
@@ -204,6 +235,16 @@ def gen_case(r, nmax):
             break
     vecs = [rand_vec(r, lp.m) for _ in range(2)]
     runs = [rand_run(r, lp) for _ in range(3)]
+    # the additions that do NOT change the dimension of the basis matrix (a column in column representation, a row in row representation):
+    # the solver pivots itself (no simplifier), then the LP grows, then getBasisInd and the queries without a re-solve
+    for _ in range(40):
+        if r.random() < 0.5:
+            rl = rand_run(r, lp, forced={"representation": 1, "simplifier": 0}, force_add="col")
+        else:
+            rl = rand_run(r, lp, forced={"representation": 2, "simplifier": 0}, force_add="row")
+        if ("addc=" in rl or "addr=" in rl) and "mode=solve " in rl + " ":
+            runs.append(rl)
+            break
     return {"lp": lp.text("x"), "vecs": [[dy(x) for x in v] for v in vecs], "runs": runs, "family": lp.family}
 
 
@@ -416,7 +457,7 @@ def plan_run(ck, Q, cid, c, lp, A, rid, runline, rr, found):
     if dump and dA != {(i, j): A[i][j] for i in range(m) for j in range(n) if A[i][j] != 0}:
         found("lp-changed", "the LP seen through the accessors differs from the LP loaded", case, {"dump": dump.get("A")})
     if rr.get("BIND2") is not None and rr["BIND2"] != bind:
-        found("bind-unstable", "getBasisInd before the queries %s and after them %s differ" % (bind, rr["BIND2"]), case, {})
+        found("bind-unstable:%s" % ("colrep" if rep == "C" else "rowrep"), "getBasisInd before the queries %s and after them %s differ" % (bind, rr["BIND2"]), case, {})
     ok = len(bind) == m and all((0 <= b < n) or (b < 0 and -1 - b < m) for b in bind) and len(set(bind)) == m
     if not ok:
         found("bind-malformed", "getBasisInd returned %s for m=%d n=%d" % (bind, m, n), case, {})
@@ -630,6 +671,13 @@ def main():
     best = {}       # signature -> (size, what, replay)
 
     def found(sig, what, case, extra):
+        # a row added in column representation / a column added in row representation (no re-solve) changes the dimension of the basis
+        # matrix: the scenario of the known finding C05-getbasisind-stale-after-dimension-change is named in the signature
+        rl = (case.get("runs") or [""])[0]
+        if "addr=" in rl:
+            sig += ":after-addrow"
+        elif "addc=" in rl:
+            sig += ":after-addcol"
         rec = dict(extra)
         rec["case"] = {k: case[k] for k in ("lp", "vecs", "runs")}
         try:
